@@ -30,6 +30,7 @@ RULE = ('cf: reference dates 1900-2100 in every spelling the parser lists '
 RULE += (' Also: flags at uneven spacing (index-list selection) decoded with bounds; a re-dated file (TFLAG edited in place) synthesised a second time; IOAPI files opened from disk, bounds on.')
 RULE += (' A share of the gridded files is the IOAPI-class object the CAMx gridded READER (uamiv) returns for an image written by the independent codec (whole-hour steps up to 168 h, ETFLAG present, header completed by the class).')
 RULE += (' The module-level decoders coordutil.gettimes / gettimebnds (used by the dump with time strings, the evaluation tool and the ARL writer) are judged on the same files: CF time in the standard calendars (to the millisecond), IOAPI flags with TSTEP-defined upper edges, tau0/tau1.')
+RULE += (" Half of the IOAPI files opened from disk are written here with netCDF4 directly the way the Models-3 I/O API library writes them (netCDF classic 64-bit offset, int32 header integers, float64 grid reals, float32 VGLVLS, TFLAG first, TSTEP the record dimension), independent of the library's writers.")
 ASSUMPTIONS = [
     'cftime 1.6.5 is an independent, correct implementation of CF time for '
     'the calendars used (years 1900-2100, so Julian/Gregorian mixing is not '
@@ -352,7 +353,12 @@ def run_ioapi_in(spec, res, d, h):
     if spec.get('disk') and spec['mode'] == 'tflag' and \
             not spec['drop_tflag']:
         # the IOAPI file saved and opened again from disk
-        g = harness.to_disk(f, d, h, res=res, fmt='ioapi')
+        g = gen_ioapi.open_m3io(fs, d, h) if fs['seed'] % 2 == 0 else None
+        if g is not None:
+            # the file as the I/O API library itself writes it
+            res.facet('ioapi-source:disk-m3io')
+        else:
+            g = harness.to_disk(f, d, h, res=res, fmt='ioapi')
         if g is not None:
             f = g
             res.facet('ioapi-source:disk')
